@@ -2,5 +2,5 @@ CONSTANTS Idx = 8448  Sub = 0  TxId = 1545  RxId = 1417  NodeId = 5  SrvNode = 9
 CONSTANT Letters <- LC  ProbeLetters <- PC
 INIT Init
 NEXT Next
-VIEW View
+VIEW ViewM
 INVARIANT InvC19
